@@ -68,6 +68,12 @@ def name_lengths():
     deep = "/".join(nm(57, "p%d" % i) for i in range(4))
     files.append(deep)
     steps.append(w(deep, "deep\n"))
+    # paths longer than 255 bytes made of components that are not (NAME_MAX limits a component, not a path)
+    for tag in ("q", "r"):
+        longp = "/".join(nm(100, "%s%d" % (tag, i)) for i in range(3)) + "/leaf"
+        files.append(longp)
+        steps.append(w(longp, "long %s\n" % tag))
+    longp = "/".join(nm(100, "q%d" % i) for i in range(3)) + "/leaf"
     steps.append({"ev": "add", "paths": ["."]})
     steps.append({"ev": "lsfiles"})
     steps.append({"ev": "commit", "msg": "lengths"})
@@ -85,7 +91,7 @@ def name_lengths():
     steps.append({"ev": "restore", "paths": [esc(nm(25)), esc(nm(26, "D"))]})
     steps.append({"ev": "reset", "mode": "hard", "arg": esc("HEAD@{1}")})
     steps.append({"ev": "status"})
-    steps.append({"ev": "rm", "paths": [esc(nm(24)), esc(nm(25)), esc(nm(26)), esc(nm(27, "D"))]})
+    steps.append({"ev": "rm", "paths": [esc(nm(24)), esc(nm(25)), esc(nm(26)), esc(nm(27, "D")), esc(longp)]})
     steps.append({"ev": "restores", "paths": [esc(nm(25)), esc(nm(27, "D"))]})
     steps.append({"ev": "commit", "msg": "third"})
     steps.append({"ev": "reset", "mode": "hard", "arg": esc("HEAD@{3}")})
@@ -1055,6 +1061,151 @@ def symlink_names():
     save("symlink_names", ["C17", "C04"], steps)
 
 
+def sibling_reset():
+    """a directory next to files named like it plus a byte below '/': resets to and from such snapshots, then lookups by name"""
+    steps = head()
+    for p_ in ("lib/util.go", "lib.go", "lib-old", "README", "docs/guide.txt", "docs.md", "src/a/x", "src/a.b", "src/a-1/y"):
+        steps.append(w(p_, p_ + "\n"))
+    steps.append({"ev": "add", "paths": ["."]})
+    steps.append({"ev": "commit", "msg": "base"})
+    steps.append(w("README", "second\n"))
+    steps.append({"ev": "add", "paths": ["README"]})
+    steps.append({"ev": "commit", "msg": "second"})
+    steps.append({"ev": "reset", "mode": "hard", "arg": esc("HEAD@{1}")})
+    steps.append({"ev": "lsfiles"})
+    steps.append({"ev": "status"})
+    steps.append({"ev": "writetree"})
+    steps.append({"ev": "catfile", "flag": "p", "idref": "tree:0"})
+    steps.append({"ev": "catfile", "flag": "p", "idref": "tree:1"})
+    steps.append({"ev": "catfile", "flag": "p", "idref": "tree:2"})
+    steps.append({"ev": "catfile", "flag": "p", "idref": "tree:3"})
+    steps.append({"ev": "add", "paths": ["lib/util.go"]})                # unchanged: nothing may change
+    steps.append({"ev": "lsfiles"})
+    steps.append({"ev": "reset", "mode": "mixed", "arg": esc("HEAD@{0}")})
+    steps.append({"ev": "lsfiles"})
+    steps.append({"ev": "status"})
+    steps.append({"ev": "commit", "msg": "nothing"})                       # refused: nothing is staged
+    steps.append({"ev": "rm", "paths": ["lib/util.go", "src/a/x"]})
+    steps.append({"ev": "lsfiles"})
+    steps.append({"ev": "restores", "paths": ["lib", "src"]})
+    steps.append({"ev": "lsfiles"})
+    steps.append({"ev": "restore", "paths": ["lib", "src"]})
+    steps.append({"ev": "status"})
+    save("sibling_reset", ["C08", "C06", "C04", "C07", "C01", "C05", "C09", "C13"], steps)
+
+
+def commit_like_blob():
+    """files whose bytes read like a commit (tree line, signs, blank line, message): their ids are no commits for update-ref"""
+    steps = head()
+    steps.append(w("a.txt", "plain\n"))
+    steps.append({"ev": "add", "paths": ["a.txt"]})
+    steps.append({"ev": "commit", "msg": "base"})
+    steps.append({"ev": "branch", "name": "dev"})
+    t = "4b825dc642cb6eb9a060e54bf8d69288fbee4904"
+    steps.append(w("notes.txt", "tree %s\n\nlooks like a commit\n" % t))
+    steps.append(w("full.txt", "tree %s\nauthor A U Thor <a@example.com> 1700000000 +0000\ncommitter A U Thor <a@example.com> 1700000000 +0000\n\nmessage\n" % t))
+    steps.append(w("parent.txt", "tree %s\nparent %s\nauthor A <a@example.com> 1 +0000\ncommitter A <a@example.com> 1 +0000\n\nm\n" % (t, t)))
+    steps.append({"ev": "add", "paths": ["."]})
+    for i in range(4):
+        steps.append({"ev": "updateref", "ref": "refs/heads/dev", "idref": "blob:%d" % i})
+        steps.append({"ev": "updateref", "ref": "refs/heads/main", "idref": "blob:%d" % i})
+        steps.append({"ev": "catfile", "flag": "t", "idref": "blob:%d" % i})
+    steps.append({"ev": "updateref", "ref": "refs/heads/dev", "idref": "tree:0"})
+    steps.append({"ev": "branchlist"})
+    steps.append({"ev": "revparse", "names": ["HEAD", "dev"]})
+    steps.append({"ev": "commit", "msg": "second"})
+    for i in range(4):
+        steps.append({"ev": "updateref", "ref": "refs/heads/dev", "idref": "blob:%d" % i})
+    steps.append({"ev": "log", "n": 3})
+    save("commit_like_blob", ["C03", "C10", "C01", "C18"], steps)
+
+
+def refname_args():
+    """branch commands given the full reference name of an existing branch"""
+    steps = head()
+    steps.append(w("a", "1"))
+    steps.append({"ev": "add", "paths": ["a"]})
+    steps.append({"ev": "commit", "msg": "one"})
+    steps.append({"ev": "branch", "name": "dev"})
+    for args in (("switch", "refs/heads/dev"), ("switch", "refs/heads/main"), ("switch", "heads/dev"), ("branch", "-d", "refs/heads/dev"),
+                 ("branch", "-r", "refs/heads/dev"), ("switch", "-c", "refs/heads/dev"), ("branch", "refs/heads/main"),
+                 ("rev-parse", "refs/heads/dev"), ("update-ref", "dev", "HEAD")):
+        steps.append(raw(args[0], *args[1:]))
+        steps.append({"ev": "branchlist"})
+    steps.append({"ev": "switch", "name": "dev"})
+    steps.append({"ev": "reflog"})
+    save("refname_args", ["C10", "C18", "C03", "C11"], steps)
+
+
+def id_args():
+    """commands that take an object id, given ids that are well-formed but special: the zero id Goit writes into its own journal,
+    all f, upper case, one digit short or long, an abbreviation"""
+    steps = head()
+    steps.append(w("a", "1"))
+    steps.append({"ev": "add", "paths": ["a"]})
+    steps.append({"ev": "commit", "msg": "one"})
+    steps.append({"ev": "branch", "name": "other"})
+    z, f = "0" * 40, "f" * 40
+    for args in (("cat-file", "-t", z), ("cat-file", "-p", z), ("cat-file", z), ("cat-file", "-t", f), ("cat-file", "-p", f),
+                 ("cat-file", "-p", "@HEADID@0"), ("cat-file", "-t", "0@HEADID@"), ("cat-file", "-p", "@HEADID@", "@HEADID@"),
+                 ("cat-file", "-t"), ("cat-file", "-p", ""), ("cat-file", "-p", "HEAD"), ("cat-file", "-t", "main"),
+                 ("update-ref", "refs/heads/other", z), ("update-ref", "refs/heads/other", f), ("update-ref", "refs/heads/other", "@HEADID@0"),
+                 ("update-ref", "refs/heads/other", ""), ("rev-parse", z), ("hash-object", z), ("reset", "--hard", z), ("reset", "--soft", "HEAD@{" + z + "}")):
+        steps.append(raw(*args))
+    steps.append({"ev": "catfile", "flag": "t", "idref": "zero"})
+    steps.append({"ev": "catfile", "flag": "p", "idref": "zero"})
+    steps.append({"ev": "catfile", "flag": "p", "idref": "upper"})
+    steps.append({"ev": "catfile", "flag": "p", "idref": "short"})
+    steps.append({"ev": "updateref", "ref": "refs/heads/other", "idref": "zero"})
+    steps.append({"ev": "branchlist"})
+    steps.append({"ev": "reflog"})
+    save("id_args", ["C18", "C01", "C10", "C03"], steps)
+
+
+def home_symlink():
+    """~/.goitconfig is a symbolic link into a dotfiles directory: the global identity behind it is the one in effect"""
+    steps = [{"ev": "init"}]
+    steps.append({"ev": "config", "global": True, "key": "user.name", "value": esc("Dot Files")})
+    steps.append({"ev": "config", "global": True, "key": "user.email", "value": "dot@example.com"})
+    steps.append({"ev": "config", "global": True, "key": "core.editor", "value": "vi"})
+    steps.append({"ev": "homelink"})
+    steps.append(w("a", "1"))
+    steps.append({"ev": "add", "paths": ["a"]})
+    steps.append({"ev": "commit", "msg": "one"})
+    steps.append({"ev": "log", "n": 1})
+    steps.append({"ev": "homelink"})
+    steps.append({"ev": "config", "key": "core.x", "value": "y"})                      # a local write leaves the global file alone
+    steps.append({"ev": "config", "global": True, "key": "core.pager", "value": "less"})   # a global write keeps the other keys
+    steps.append(w("a", "2"))
+    steps.append({"ev": "add", "paths": ["a"]})
+    steps.append({"ev": "commit", "msg": "two"})
+    steps.append({"ev": "log", "n": 2})
+    save("home_symlink", ["C20", "C12"], steps)
+
+
+def hash_ignore():
+    """directory entries of .goitignore whose names begin with '#' or ';' are entries like any other"""
+    steps = head()
+    for p_ in ("#recycle/old/junk.txt", ";old/x", "src/main.txt", "build/o.txt", "run.log", "#notes"):
+        steps.append(w(p_, p_ + "\n"))
+    steps.append({"ev": "write", "p": ".goitignore", "data": "build/\n\n#recycle/\n;old/\n*.log\n", "old": False})
+    steps.append({"ev": "status"})
+    steps.append({"ev": "add", "paths": ["."]})
+    steps.append({"ev": "lsfiles"})
+    steps.append({"ev": "add", "paths": [esc("#recycle")]})
+    steps.append({"ev": "add", "paths": [esc(";old/x")]})
+    steps.append({"ev": "add", "paths": [esc("#recycle/old/junk.txt"), "src"]})
+    steps.append({"ev": "lsfiles"})
+    steps.append({"ev": "commit", "msg": "base"})
+    steps.append({"ev": "status"})
+    steps.append(w("#recycle/more.txt", "m\n"))
+    steps.append(w("#notes", "changed\n"))
+    steps.append({"ev": "status"})
+    steps.append({"ev": "add", "paths": ["."]})
+    steps.append({"ev": "lsfiles"})
+    save("hash_ignore", ["C17", "C13", "C04"], steps)
+
+
 if __name__ == "__main__":
     name_lengths()
     big_index()
@@ -1092,3 +1243,9 @@ if __name__ == "__main__":
     key_case()
     fs_corpus3()
     symlink_names()
+    sibling_reset()
+    commit_like_blob()
+    refname_args()
+    id_args()
+    home_symlink()
+    hash_ignore()
